@@ -478,3 +478,68 @@ def frames_of_every_scale(tier, rng, rep):
                 rep.case(key=(t, sc, per_row), nontrivial=sc != 1.0, sample=inp if (t, sc, per_row) == (0, 1e-5, False) else None)
                 if len(rep.failures) >= 3:
                     return
+
+
+@bounded(P, "structured_forms", functions=[U + "diagonalize_form", U + "eigh"],
+         note="non-degenerate symmetric forms with many exact zeros: the hyperbolic plane [[0,1],[1,0]], anti-diagonal forms, x0 x2 + x1^2, sums of hyperbolic planes and definite diagonal "
+              "blocks, monomial (signed / scaled permutation) forms, block-diagonal forms, and batches of them: W^T B W is diagonal +-1 in the requested order and the returned inverse is the inverse")
+def structured_forms(tier, rng, rep):
+    N = 60 if tier == 'thorough' else 15
+    rep.rule = "sizes 2..6; fixed list of sparse forms plus random symmetric monomial forms (one non-zero per row and column, entries +-[0.5, 3]) and random block sums; orders signed / minkowski, reverse or not; batches of 3 forms of the same kind"
+    rep.bound = f"10 fixed + {N} random forms x 4 options"
+    fixed = [np.array([[0., 1.], [1., 0.]]), np.array([[0., 0., 1.], [0., 1., 0.], [1., 0., 0.]]), np.array([[0., 2.], [2., 0.]]), np.fliplr(np.identity(4)), np.fliplr(np.identity(5)), np.fliplr(np.identity(6)),
+             np.array([[0., 1., 0., 0.], [1., 0., 0., 0.], [0., 0., 1., 0.], [0., 0., 0., -2.]]), np.array([[0., 0., 0., 3.], [0., -1., 0., 0.], [0., 0., 1., 0.], [3., 0., 0., 0.]]),
+             np.array([[1., 0., 0.], [0., 0., -1.], [0., -1., 0.]]), np.array([[0., -1.], [-1., 0.]])]
+
+    def monomial(m):
+        while True:
+            perm = rng.permutation(m)
+            if np.array_equal(np.argsort(perm), perm) and not np.array_equal(perm, np.arange(m)):        # an involution that is not the identity: the form is symmetric and not diagonal
+                break
+        B = np.zeros((m, m))
+        for i in range(m):
+            if perm[i] >= i:
+                B[i, perm[i]] = B[perm[i], i] = rng.choice([-1, 1]) * rng.uniform(0.5, 3)
+        return B
+    forms = [(f, ()) for f in fixed]
+    for t in range(N):
+        m = int(rng.integers(2, 7))
+        if t % 3 == 2:
+            forms.append((np.stack([monomial(m) for _ in range(3)]), (3,)))
+        else:
+            forms.append((monomial(m), ()))
+    for fi, (B, shape) in enumerate(forms):
+        m = B.shape[-1]
+        for order in ("signed", "minkowski"):
+            for reverse in (False, True):
+                if reverse and shape:
+                    continue          # documented for one form of shape (n, n); stacks are exercised without the reversal option only
+                inp = {"B": B.tolist(), "order": order, "reverse": reverse}
+
+                def body():
+                    W, Winv = utils.diagonalize_form(B.copy(), order_eigenvalues=order, reverse=reverse, with_inverse=True)
+                    W, Winv = np.asarray(W, dtype=float), np.asarray(Winv, dtype=float)
+                    D = np.swapaxes(W, -1, -2) @ B @ W
+                    dg = np.diagonal(D, axis1=-2, axis2=-1)
+                    if not np.all(np.abs(D - dg[..., None] * np.identity(m)) <= 1e-8) or not np.all(np.abs(np.abs(dg) - 1) <= 1e-8):
+                        rep.fail("diagonalize_form_diag_pm1", f"W^T B W = {np.round(D, 6).tolist()}", inp); return
+                    if not np.all(np.abs(W @ Winv - np.identity(m)) <= 1e-8):
+                        rep.fail("diagonalize_form_inverse", "W @ Winv != I", inp); return
+                    for idx in np.ndindex(*shape):
+                        ev = np.linalg.eigvalsh(B[idx])
+                        neg, pos = int((ev < 0).sum()), int((ev > 0).sum())
+                        sg = np.sign(np.round(dg[idx]))
+                        if int((sg < 0).sum()) != neg or int((sg > 0).sum()) != pos:
+                            rep.fail("diagonalize_form_signature", f"signs {sg.tolist()} for a form of signature ({pos}, {neg})", inp); return
+                        if order == "signed":
+                            want = np.array([-1.0] * neg + [1.0] * pos)
+                        else:
+                            want = np.array([-1.0] * neg + [1.0] * pos) if neg <= pos else np.array([1.0] * pos + [-1.0] * neg)
+                        if reverse:
+                            want = want[::-1]
+                        if not np.array_equal(sg, want):
+                            rep.fail("diagonalize_form_order", f"diagonal signs {sg.tolist()} expected {want.tolist()}", inp); return
+                rep.attempt("diagonalize_form_runs", inp, body)
+                rep.case(key=(fi, order, reverse), nontrivial=True, sample=inp if (fi, order, reverse) == (0, "signed", False) else None)
+                if len(rep.failures) >= 3:
+                    return
